@@ -276,7 +276,8 @@ func (tx *Tx) RangeScan(bucket string, start, end []byte) (es Entries, err error
 func (tx *Tx) rangeScanOnDisk(bucket string, start, end []byte) ([]*Entry, error) {
 	var result []*Entry
 
-	bptSparseIdxGroup := tx.db.BPTreeRootIdxes
+	// sort a copy: read transactions run concurrently and share the slice
+	bptSparseIdxGroup := append([]*BPTreeRootIdx(nil), tx.db.BPTreeRootIdxes...)
 	verifAccess("rootidxes", true, tx.db)
 
 	SortFID(bptSparseIdxGroup, func(p, q *BPTreeRootIdx) bool {
@@ -310,7 +311,8 @@ func (tx *Tx) prefixScanOnDisk(bucket string, prefix []byte, offsetNum int, limi
 	var result []*Entry
 	var off int
 
-	bptSparseIdxGroup := tx.db.BPTreeRootIdxes
+	// sort a copy: read transactions run concurrently and share the slice
+	bptSparseIdxGroup := append([]*BPTreeRootIdx(nil), tx.db.BPTreeRootIdxes...)
 	verifAccess("rootidxes", true, tx.db)
 	SortFID(bptSparseIdxGroup, func(p, q *BPTreeRootIdx) bool {
 		return p.fID > q.fID
@@ -348,7 +350,8 @@ func (tx *Tx) prefixSearchScanOnDisk(bucket string, prefix []byte, reg string, o
 	var result []*Entry
 	var off int
 
-	bptSparseIdxGroup := tx.db.BPTreeRootIdxes
+	// sort a copy: read transactions run concurrently and share the slice
+	bptSparseIdxGroup := append([]*BPTreeRootIdx(nil), tx.db.BPTreeRootIdxes...)
 	verifAccess("rootidxes", true, tx.db)
 	SortFID(bptSparseIdxGroup, func(p, q *BPTreeRootIdx) bool {
 		return p.fID > q.fID
